@@ -3,7 +3,7 @@
             effect of every primitive read / write on them.
    Part B: doubly linked chains over such functions (pure).
    Part C: the representation invariant [Rep] and its preservation. *)
-From Typ Require Import Lib.Base Lists.Heap Lists.ListModel.
+From Typ Require Import Lib.Base Lists.Heap Lists.ListModel Lists.ListSpec.
 
 (* ================= Part A: projections and primitive effects ================= *)
 
@@ -19,32 +19,6 @@ Definition vl := proj e_val 0%Z.
 
 Definition upd {A} (f : nat -> A) (i : nat) (v : A) : nat -> A :=
   fun j => if Nat.eqb j i then v else f j.
-
-Fixpoint map_nth {C} (f : C -> C) (i : nat) (h : list C) : list C :=
-  match h, i with
-  | [], _ => []
-  | x :: t, O => f x :: t
-  | x :: t, S i' => x :: map_nth f i' t
-  end.
-
-Lemma length_map_nth {C} (f : C -> C) i h : length (map_nth f i h) = length h.
-Proof. revert i; induction h as [|x t IH]; intros [|i]; simpl; auto. Qed.
-
-Lemma nth_error_map_nth {C} (f : C -> C) i h j :
-  nth_error (map_nth f i h) j =
-  if Nat.eqb j i then option_map f (nth_error h i) else nth_error h j.
-Proof.
-  revert i j; induction h as [|x t IH]; intros [|i] [|j]; simpl; auto.
-  destruct (Nat.eqb j i); reflexivity.
-Qed.
-
-Lemma replace_nth_map_nth {C} (f : C -> C) i h c :
-  nth_error h i = Some c -> replace_nth i (f c) h = map_nth f i h.
-Proof.
-  revert i; induction h as [|x t IH]; intros [|i] H; simpl in *; try discriminate.
-  - congruence.
-  - f_equal; auto.
-Qed.
 
 Definition st_upd (f : elem -> elem) (s : state) (i : nat) : state :=
   State (map_nth f i (elems s)) (lsts s).
@@ -121,17 +95,17 @@ Local Ltac t := unfold nx, pv, ow, vl, upd; rewrite proj_st_upd;
   [ unfold proj; destruct (Nat.eqb_spec j i) as [->|]; [rewrite ?E|]; reflexivity
   | apply nth_error_None in E; unfold size in Hi; lia ].
 
-Lemma nx_set_next : nx (st_upd (set_next v) s i) j = upd (nx s) i v j. Proof. t. Qed.
+Lemma nx_set_next : nx (st_upd (set_next v) s i) j = if Nat.eqb j i then v else nx s j. Proof. t. Qed.
 Lemma pv_set_next : pv (st_upd (set_next v) s i) j = pv s j. Proof. t. Qed.
 Lemma ow_set_next : ow (st_upd (set_next v) s i) j = ow s j. Proof. t. Qed.
 Lemma vl_set_next : vl (st_upd (set_next v) s i) j = vl s j. Proof. t. Qed.
 Lemma nx_set_prev : nx (st_upd (set_prev v) s i) j = nx s j. Proof. t. Qed.
-Lemma pv_set_prev : pv (st_upd (set_prev v) s i) j = upd (pv s) i v j. Proof. t. Qed.
+Lemma pv_set_prev : pv (st_upd (set_prev v) s i) j = if Nat.eqb j i then v else pv s j. Proof. t. Qed.
 Lemma ow_set_prev : ow (st_upd (set_prev v) s i) j = ow s j. Proof. t. Qed.
 Lemma vl_set_prev : vl (st_upd (set_prev v) s i) j = vl s j. Proof. t. Qed.
 Lemma nx_set_list : nx (st_upd (set_list v) s i) j = nx s j. Proof. t. Qed.
 Lemma pv_set_list : pv (st_upd (set_list v) s i) j = pv s j. Proof. t. Qed.
-Lemma ow_set_list : ow (st_upd (set_list v) s i) j = upd (ow s) i v j. Proof. t. Qed.
+Lemma ow_set_list : ow (st_upd (set_list v) s i) j = if Nat.eqb j i then v else ow s j. Proof. t. Qed.
 Lemma vl_set_list : vl (st_upd (set_list v) s i) j = vl s j. Proof. t. Qed.
 End UpdRules.
 
@@ -149,7 +123,7 @@ Ltac upd_tac :=
   repeat match goal with
          | |- context[Nat.eqb ?x ?y] => destruct (Nat.eqb_spec x y)
          | H : context[Nat.eqb ?x ?y] |- _ => destruct (Nat.eqb_spec x y)
-         end; subst; try congruence; try tauto.
+         end; subst; try congruence; try tauto; try solve [intuition congruence].
 
 Lemma chain_app nx pv a xs y ys b :
   chain nx pv a (xs ++ y :: ys) b <-> chain nx pv a xs y /\ chain nx pv y ys b.
@@ -179,11 +153,14 @@ Qed.
 Lemma chain_first nx pv a xs b : chain nx pv a xs b -> nx a = Some (hd b xs).
 Proof. destruct xs; simpl; tauto. Qed.
 
+Lemma last_cons {A} (x a : A) t : last (x :: t) a = last t x.
+Proof. revert x a; induction t as [|y u IH]; intros x a; [reflexivity|]. change (last (x :: y :: u) a) with (last (y :: u) a). rewrite !IH. reflexivity. Qed.
+
 Lemma chain_last nx pv a xs b : chain nx pv a xs b -> pv b = Some (last xs a).
 Proof.
-  revert a; induction xs as [|x t IH]; intro a; simpl.
-  - tauto.
-  - intros (_ & _ & H). rewrite (IH _ H). destruct t; reflexivity.
+  revert a; induction xs as [|x t IH]; intro a.
+  - simpl. tauto.
+  - intros (_ & _ & H). rewrite (IH _ H), last_cons. reflexivity.
 Qed.
 
 Lemma chain_at nx pv a pre e post b :
@@ -240,8 +217,7 @@ Proof.
     change ((x :: t) ++ post) with (x :: (t ++ post)).
     cbn [chain] in H. destruct H as (H1 & H2 & H3).
     inversion ND as [|? ? Na ND1]; subst.
-    assert (L : last (x :: t) a = last t x) by (clear; revert x; induction t; intros; simpl in *; auto; destruct t; auto).
-    rewrite L.
+    rewrite last_cons.
     cbn [chain]. specialize (IH x H3 ND1).
     assert (Nb' : ~ In b (t ++ e :: post)) by (intro; apply Nb; simpl; auto).
     specialize (IH Nb').
@@ -255,5 +231,299 @@ Proof.
       unfold upd. destruct (Nat.eqb_spec x (hd b post)) as [E|]; auto.
       exfalso. destruct (hd_in_or b post) as [[E1 _]|I].
       * apply Nb. rewrite <- E1, <- E. simpl; auto.
-      * inversion ND1 as [|? ? Nx _]; subst. apply Nx. rewrite E. apply in_or_app. simpl; auto.
+      * apply NoDup_cons_iff in ND1 as [Nx _]. apply Nx. rewrite E. apply in_or_app. simpl; auto.
+Qed.
+
+(* ================= Part A': symbolic execution of the model ================= *)
+
+Lemma rd_next_eq s i : i < size s -> rd e_next s (Some i) = Ok (nx s i).
+Proof. apply rd_eq. Qed.
+Lemma rd_prev_eq s i : i < size s -> rd e_prev s (Some i) = Ok (pv s i).
+Proof. apply rd_eq. Qed.
+Lemma rd_list_eq s i : i < size s -> rd e_list s (Some i) = Ok (ow s i).
+Proof. apply rd_eq. Qed.
+Lemma rd_val_eq s i : i < size s -> rd e_val s (Some i) = Ok (vl s i).
+Proof. apply rd_eq. Qed.
+
+Ltac size_tac :=
+  rewrite ?size_st_upd, ?size_st_len, ?size_st_alloc; first [assumption | lia].
+
+#[export] Hint Rewrite size_st_upd size_st_len size_st_alloc lsts_st_upd lsts_st_alloc : heap.
+#[export] Hint Rewrite nx_set_next pv_set_next ow_set_next vl_set_next
+     nx_set_prev pv_set_prev ow_set_prev vl_set_prev
+     nx_set_list pv_set_list ow_set_list vl_set_list using size_tac : heap.
+
+Lemma upd_same {A} (f : nat -> A) i v : upd f i v i = v.
+Proof. unfold upd. rewrite Nat.eqb_refl. reflexivity. Qed.
+Lemma upd_other {A} (f : nat -> A) i v j : j <> i -> upd f i v j = f j.
+Proof. intro H. unfold upd. apply Nat.eqb_neq in H. rewrite H. reflexivity. Qed.
+
+(* one Go statement: a field read or write through a non-nil pointer *)
+Ltac hstep :=
+  first [ rewrite wr_eq by size_tac
+        | rewrite rd_next_eq by size_tac
+        | rewrite rd_prev_eq by size_tac
+        | rewrite rd_list_eq by size_tac
+        | rewrite rd_val_eq by size_tac ];
+  cbn [bind].
+
+Ltac hnorm := autorewrite with heap; rewrite ?Nat.eqb_refl;
+  repeat match goal with
+         | |- context[Nat.eqb ?x ?y] =>
+             first [ rewrite (proj2 (Nat.eqb_neq x y)) by congruence
+                   | rewrite (proj2 (Nat.eqb_eq x y)) by congruence ]
+         end.
+
+(* link e after a (n0 = a.next): e.prev = a; e.next = a.next; e.prev.next = e; e.next.prev = e *)
+Definition st_link (s : state) (e a n0 : nat) : state :=
+  st_upd (set_prev (Some e))
+    (st_upd (set_next (Some e))
+       (st_upd (set_next (Some n0))
+          (st_upd (set_prev (Some a)) s e) e) a) n0.
+
+Section Link.
+Variables (s : state) (e a n0 : nat).
+Hypotheses (He : e < size s) (Ha : a < size s) (Hn : n0 < size s).
+
+Lemma size_st_link : size (st_link s e a n0) = size s.
+Proof. unfold st_link, upd. now autorewrite with heap. Qed.
+Lemma lsts_st_link : lsts (st_link s e a n0) = lsts s.
+Proof. reflexivity. Qed.
+Lemma nx_st_link j : nx (st_link s e a n0) j = upd (upd (nx s) e (Some n0)) a (Some e) j.
+Proof. unfold st_link, upd. now autorewrite with heap. Qed.
+Lemma pv_st_link j : pv (st_link s e a n0) j = upd (upd (pv s) e (Some a)) n0 (Some e) j.
+Proof. unfold st_link, upd. now autorewrite with heap. Qed.
+Lemma ow_st_link j : ow (st_link s e a n0) j = ow s j.
+Proof. unfold st_link, upd. now autorewrite with heap. Qed.
+Lemma vl_st_link j : vl (st_link s e a n0) j = vl s j.
+Proof. unfold st_link, upd. now autorewrite with heap. Qed.
+End Link.
+
+(* unlink e (p = e.prev, n = e.next): e.prev.next = e.next; e.next.prev = e.prev *)
+Definition st_unlink (s : state) (p n : nat) : state :=
+  st_upd (set_prev (Some p)) (st_upd (set_next (Some n)) s p) n.
+
+Section Unlink.
+Variables (s : state) (p n : nat).
+Hypotheses (Hp : p < size s) (Hn : n < size s).
+Lemma size_st_unlink : size (st_unlink s p n) = size s.
+Proof. unfold st_unlink, upd. now autorewrite with heap. Qed.
+Lemma lsts_st_unlink : lsts (st_unlink s p n) = lsts s.
+Proof. reflexivity. Qed.
+Lemma nx_st_unlink j : nx (st_unlink s p n) j = upd (nx s) p (Some n) j.
+Proof. unfold st_unlink, upd. now autorewrite with heap. Qed.
+Lemma pv_st_unlink j : pv (st_unlink s p n) j = upd (pv s) n (Some p) j.
+Proof. unfold st_unlink, upd. now autorewrite with heap. Qed.
+Lemma ow_st_unlink j : ow (st_unlink s p n) j = ow s j.
+Proof. unfold st_unlink, upd. now autorewrite with heap. Qed.
+Lemma vl_st_unlink j : vl (st_unlink s p n) j = vl s j.
+Proof. unfold st_unlink, upd. now autorewrite with heap. Qed.
+End Unlink.
+
+(* l.len = z *)
+Lemma set_len_eq s l z : l < length (lsts s) -> set_len s l z = Ok (st_len s l z).
+Proof.
+  intro H. unfold set_len, hupd, st_len.
+  destruct (nth_error (lsts s) l) as [r|] eqn:E.
+  - cbn [bind]. rewrite (replace_nth_map_nth (fun r => LRec (l_root r) z) l _ r E). reflexivity.
+  - apply nth_error_None in E. lia.
+Qed.
+
+Lemma root_of_eq s l r z : nth_error (lsts s) l = Some (LRec r z) -> root_of s l = Ok (Some r).
+Proof. intro H. unfold root_of, hget. rewrite H. reflexivity. Qed.
+Lemma len_of_eq s l r z : nth_error (lsts s) l = Some (LRec r z) -> len_of s l = Ok z.
+Proof. intro H. unfold len_of, hget. rewrite H. reflexivity. Qed.
+
+Lemma lsts_st_len s l z j :
+  nth_error (lsts (st_len s l z)) j =
+  if Nat.eqb j l then option_map (fun r => LRec (l_root r) z) (nth_error (lsts s) l) else nth_error (lsts s) j.
+Proof. unfold st_len; cbn [lsts]. apply nth_error_map_nth. Qed.
+
+(* the four linking statements of insert / move *)
+Lemma link_exec s e a n0 (k : state -> result state) :
+  e < size s -> a < size s -> n0 < size s -> e <> a -> nx s a = Some n0 ->
+  (do s <- wr (set_prev (Some a)) s (Some e);
+   do n <- rd e_next s (Some a);
+   do s <- wr (set_next n) s (Some e);
+   do p <- rd e_prev s (Some e);
+   do s <- wr (set_next (Some e)) s p;
+   do n <- rd e_next s (Some e);
+   do s <- wr (set_prev (Some e)) s n;
+   k s) = k (st_link s e a n0).
+Proof.
+  intros He Ha Hn Nea E.
+  hstep. hstep. hnorm. rewrite E. hstep. hstep. hnorm. hstep. hstep. hnorm. hstep.
+  reflexivity.
+Qed.
+
+(* ================= Part C: the representation invariant ================= *)
+
+Definition alen (o : option (list nat)) : Z :=
+  match o with None => 0%Z | Some xs => Z.of_nat (length xs) end.
+Definition is_root (a : astate) (e : nat) : Prop := In e (map fst (a_lists a)).
+
+(* [Rep s a]: the heap s represents the abstract state a.
+   - every list record points to its sentinel cell and stores the length of its sequence;
+   - sentinels are distinct cells that belong to no list;
+   - a zero-value list has nil links in its sentinel;
+   - an initialised list is a chain sentinel -> xs -> sentinel linked both ways, xs has no
+     repetition, and exactly the members of xs have Element.list = this list;
+   - a cell that is in no list (removed, or never inserted) and is no sentinel has nil links. *)
+Record Rep (s : state) (a : astate) : Prop := {
+  R_vals : size s = length (a_vals a) /\ forall j, j < size s -> nth_error (a_vals a) j = Some (vl s j);
+  R_lsts : length (lsts s) = length (a_lists a) /\
+           forall l r o, nth_error (a_lists a) l = Some (r, o) -> nth_error (lsts s) l = Some (LRec r (alen o));
+  R_roots : NoDup (map fst (a_lists a)) /\ forall e, is_root a e -> e < size s /\ ow s e = None;
+  R_uninit : forall l r, nth_error (a_lists a) l = Some (r, None) -> nx s r = None /\ pv s r = None;
+  R_init : forall l r xs, nth_error (a_lists a) l = Some (r, Some xs) ->
+           chain (nx s) (pv s) r xs r /\ NoDup xs /\ forall e, In e xs -> ow s e = Some l;
+  R_own : forall e l, ow s e = Some l -> exists r xs, nth_error (a_lists a) l = Some (r, Some xs) /\ In e xs;
+  R_free : forall e, ow s e = None -> ~ is_root a e -> nx s e = None /\ pv s e = None
+}.
+
+Lemma ow_lt s e l : ow s e = Some l -> e < size s.
+Proof. intro H. apply (proj_in e_list None). unfold ow in H. congruence. Qed.
+
+Lemma nth_error_is_root a l r o : nth_error (a_lists a) l = Some (r, o) -> is_root a r.
+Proof. intro H. unfold is_root. apply nth_error_In in H. apply (in_map fst) in H. exact H. Qed.
+
+Lemma Rep_root_notin s a l r xs l' r' o' :
+  Rep s a -> nth_error (a_lists a) l = Some (r, Some xs) -> nth_error (a_lists a) l' = Some (r', o') -> ~ In r' xs.
+Proof.
+  intros R H H' I.
+  destruct (R_init _ _ R _ _ _ H) as (_ & _ & O). specialize (O _ I).
+  destruct (R_roots _ _ R) as [_ RR]. destruct (RR r' (nth_error_is_root _ _ _ _ H')) as [_ E]. congruence.
+Qed.
+
+Lemma Rep_roots_inj s a l r o l' o' :
+  Rep s a -> nth_error (a_lists a) l = Some (r, o) -> nth_error (a_lists a) l' = Some (r, o') -> l = l'.
+Proof.
+  intros R H H'. destruct (R_roots _ _ R) as [ND _].
+  assert (E1 : nth_error (map fst (a_lists a)) l = Some r) by (rewrite nth_error_map, H; reflexivity).
+  assert (E2 : nth_error (map fst (a_lists a)) l' = Some r) by (rewrite nth_error_map, H'; reflexivity).
+  eapply (proj1 (NoDup_nth_error _) ND); [|congruence].
+  apply nth_error_Some. congruence.
+Qed.
+
+Lemma a_set_nth a l xs j :
+  nth_error (a_lists (a_set a l xs)) j =
+  if Nat.eqb j l then option_map (fun x => (fst x, Some xs)) (nth_error (a_lists a) l)
+  else nth_error (a_lists a) j.
+Proof. unfold a_set; cbn [a_lists]. apply nth_error_map_nth. Qed.
+
+Lemma map_fst_map_nth (L : list (nat * option (list nat))) l xs :
+  map fst (map_nth (fun x => (fst x, Some xs)) l L) = map fst L.
+Proof. revert l; induction L as [|x t IH]; intros [|l]; simpl; f_equal; auto. Qed.
+
+Lemma is_root_a_set a l xs e : is_root (a_set a l xs) e <-> is_root a e.
+Proof. unfold is_root, a_set; cbn [a_lists]. rewrite map_fst_map_nth. tauto. Qed.
+
+(* Generic preservation: list l changes from o to Some xs'; cells outside
+   {root} + old members + new members are untouched; new members were free cells. *)
+Lemma Rep_set_list s a s' l r o xs' :
+  Rep s a ->
+  nth_error (a_lists a) l = Some (r, o) ->
+  let old := match o with Some xs => xs | None => [] end in
+  size s' = size s ->
+  (forall j, vl s' j = vl s j) ->
+  (forall j, nth_error (lsts s') j =
+             if Nat.eqb j l then Some (LRec r (Z.of_nat (length xs'))) else nth_error (lsts s) j) ->
+  (forall j, j <> r -> ~ In j old -> ~ In j xs' ->
+             nx s' j = nx s j /\ pv s' j = pv s j /\ ow s' j = ow s j) ->
+  (forall j, In j xs' -> ~ In j old -> ow s j = None /\ ~ is_root a j /\ j < size s) ->
+  chain (nx s') (pv s') r xs' r -> NoDup xs' -> (forall e, In e xs' -> ow s' e = Some l) ->
+  ow s' r = None ->
+  (forall j, In j old -> ~ In j xs' -> ow s' j = None /\ nx s' j = None /\ pv s' j = None) ->
+  Rep s' (a_set a l xs').
+Proof.
+  intros R Hl old Hsz Hvl Hls Hfr Hnew Hch Hnd How Hr Hrm.
+  assert (Hold : forall j, In j old -> ow s j = Some l).
+  { subst old. destruct o as [xs|]; [|intros ? []]. apply (R_init _ _ R _ _ _ Hl). }
+  assert (Hroot_un : forall e, is_root a e -> e <> r ->
+                               nx s' e = nx s e /\ pv s' e = pv s e /\ ow s' e = ow s e).
+  { intros e He Ne. destruct (proj2 (R_roots _ _ R) e He) as [_ Oe].
+    apply Hfr; auto.
+    - intro I. apply Hold in I. congruence.
+    - intro I. destruct (in_dec Nat.eq_dec e old) as [I'|I'].
+      + apply Hold in I'. congruence.
+      + destruct (Hnew e I I') as (_ & N & _). contradiction. }
+  assert (Hother : forall e l', l' <> l -> ow s e = Some l' ->
+                                nx s' e = nx s e /\ pv s' e = pv s e /\ ow s' e = ow s e).
+  { intros e l' Nl Oe. apply Hfr.
+    - intros ->. destruct (proj2 (R_roots _ _ R) r (nth_error_is_root _ _ _ _ Hl)). congruence.
+    - intro I. apply Hold in I. congruence.
+    - intro I. destruct (in_dec Nat.eq_dec e old) as [I'|I'].
+      + apply Hold in I'. congruence.
+      + destruct (Hnew e I I') as (N & _). congruence. }
+  constructor.
+  - (* vals *)
+    destruct (R_vals _ _ R) as [V1 V2]. cbn [a_set a_vals]. split; [congruence|].
+    intros j Hj. rewrite Hvl. apply V2. lia.
+  - (* lsts *)
+    destruct (R_lsts _ _ R) as [L1 L2]. split.
+    + unfold a_set; cbn [a_lists]. rewrite length_map_nth, <- L1.
+      (* lengths: from pointwise description *)
+      assert (forall j, nth_error (lsts s') j = None <-> nth_error (lsts s) j = None).
+      { intro j. rewrite Hls. destruct (Nat.eqb_spec j l) as [->|]; [|tauto].
+        rewrite (L2 _ _ _ Hl). split; discriminate. }
+      destruct (Nat.lt_trichotomy (length (lsts s')) (length (lsts s))) as [Lt|[E|Lt]]; auto; exfalso.
+      * assert (N : nth_error (lsts s') (length (lsts s')) = None) by (apply nth_error_None; lia).
+        apply H in N. apply nth_error_None in N. lia.
+      * assert (N : nth_error (lsts s) (length (lsts s)) = None) by (apply nth_error_None; lia).
+        apply H in N. apply nth_error_None in N. lia.
+    + intros l' r' o'. rewrite a_set_nth, Hls.
+      destruct (Nat.eqb_spec l' l) as [->|N].
+      * rewrite Hl. cbn. intro E; injection E as <- <-. reflexivity.
+      * apply L2.
+  - (* roots *)
+    destruct (R_roots _ _ R) as [ND RR]. split.
+    + unfold a_set; cbn [a_lists]. rewrite map_fst_map_nth. exact ND.
+    + intros e He. apply is_root_a_set in He. destruct (RR e He) as [Se Oe]. split; [lia|].
+      destruct (Nat.eq_dec e r) as [->|Ne]; auto.
+      destruct (Hroot_un e He Ne) as (_ & _ & ->). exact Oe.
+  - (* uninit *)
+    intros l' r'. rewrite a_set_nth.
+    destruct (Nat.eqb_spec l' l) as [->|N].
+    + rewrite Hl. cbn. discriminate.
+    + intro H'. destruct (R_uninit _ _ R _ _ H') as [U1 U2].
+      assert (Ne : r' <> r).
+      { intros ->. apply N. eapply Rep_roots_inj; eauto. }
+      destruct (Hroot_un r' (nth_error_is_root _ _ _ _ H') Ne) as (-> & -> & _). auto.
+  - (* init *)
+    intros l' r' xs. rewrite a_set_nth.
+    destruct (Nat.eqb_spec l' l) as [->|N].
+    + rewrite Hl. cbn. intro E; injection E as <- <-. auto.
+    + intro H'. destruct (R_init _ _ R _ _ _ H') as (C & D & O).
+      assert (Ne : r' <> r).
+      { intros ->. apply N. eapply Rep_roots_inj; eauto. }
+      repeat split; auto.
+      * eapply chain_frame; [| |exact C].
+        -- intros x [->|I]; [apply (Hroot_un r' (nth_error_is_root _ _ _ _ H') Ne)|].
+           apply (Hother x l' N (O _ I)).
+        -- intros x [I| ->]; [|apply (Hroot_un r' (nth_error_is_root _ _ _ _ H') Ne)].
+           apply (Hother x l' N (O _ I)).
+      * intros e I. destruct (Hother e l' N (O _ I)) as (_ & _ & ->). auto.
+  - (* own *)
+    intros e l' Oe.
+    destruct (in_dec Nat.eq_dec e xs') as [I|NI].
+    + rewrite (How _ I) in Oe. injection Oe as <-.
+      exists r, xs'. rewrite a_set_nth, Nat.eqb_refl, Hl. auto.
+    + destruct (in_dec Nat.eq_dec e old) as [I'|NI'].
+      { destruct (Hrm e I' NI) as (E & _). congruence. }
+      destruct (Nat.eq_dec e r) as [->|Ne]; [congruence|].
+      destruct (Hfr e Ne NI' NI) as (_ & _ & E). rewrite E in Oe.
+      destruct (R_own _ _ R _ _ Oe) as (r0 & xs0 & H0 & I0).
+      destruct (Nat.eq_dec l' l) as [->|Nl].
+      * exfalso. apply NI'. subst old. rewrite Hl in H0. injection H0 as <- <-. exact I0.
+      * exists r0, xs0. rewrite a_set_nth. apply Nat.eqb_neq in Nl. rewrite Nl. auto.
+  - (* free *)
+    intros e Oe Nr. rewrite is_root_a_set in Nr.
+    destruct (in_dec Nat.eq_dec e xs') as [I|NI].
+    { rewrite (How _ I) in Oe. discriminate. }
+    destruct (in_dec Nat.eq_dec e old) as [I'|NI'].
+    { destruct (Hrm e I' NI) as (_ & E1 & E2). auto. }
+    destruct (Nat.eq_dec e r) as [->|Ne].
+    { exfalso. apply Nr. eapply nth_error_is_root; eauto. }
+    destruct (Hfr e Ne NI' NI) as (-> & -> & E). rewrite E in Oe.
+    apply (R_free _ _ R); auto.
 Qed.
